@@ -386,8 +386,10 @@ def check_C07(tier):
 # C02, C15: the C01 corpora, compared across compilation variants
 
 def stages_variants(prop, modes, tier):
+    # the enumerated corpora are those of C01's quick tier in both tiers (each is replayed in 3-5 variants);
+    # the thorough tier adds 13 times more random deep derivations
     out = []
-    for fam, n in C01_FAMILIES[tier]:
+    for fam, n in C01_FAMILIES["quick"]:
         out.append(Stage("%s-n%d" % (fam, n), "MC_Expr", gen_cfg(fam, n), prop, modes=modes))
     sim_n = 300 if tier == "quick" else 4000
     for fam in ("mixed", "builtin", "coll"):
